@@ -5,6 +5,7 @@ package slip
 import (
 	"math"
 	"math/big"
+	"sort"
 	"strconv"
 )
 
@@ -147,20 +148,27 @@ func (obj HashTable) Eval(s *Scope, depth int) Object {
 	return obj
 }
 
-// LoadForm returns a form that can be evaluated to create the object.
+// LoadForm returns a form that can be evaluated to create the object. The
+// entries are written in the order of the printed keys so that the form does
+// not depend on the iteration order of the map.
 func (obj HashTable) LoadForm() Object {
 	tsym := Symbol("table")
 	form := List{
 		Symbol("let"),
 		List{List{tsym, List{Symbol("make-hash-table")}}},
 	}
-	for k, v := range obj {
+	keys := make([]Object, 0, len(obj))
+	for k := range obj {
 		switch k.(type) {
-		case Symbol:
-			form = append(form, List{Symbol("setf"), List{Symbol("gethash"), List{quoteSymbol, k}, tsym}, v})
-		case String, Number, nil:
-			form = append(form, List{Symbol("setf"), List{Symbol("gethash"), k, tsym}, v})
+		case Symbol, String, Number, nil:
+			keys = append(keys, k)
 		}
+	}
+	sort.Slice(keys, func(i, j int) bool { return ObjectString(keys[i]) < ObjectString(keys[j]) })
+	for _, k := range keys {
+		// The key and value forms are evaluated when loaded.
+		form = append(form,
+			List{Symbol("setf"), List{Symbol("gethash"), elementLoadForm(k), tsym}, elementLoadForm(obj[k])})
 	}
 	form = append(form, Symbol("table"))
 
